@@ -212,7 +212,31 @@ def rule_wire(ctx: Ctx) -> None:
                   f"{name} accepts a path without checking every signature or without reaching the genesis")
 
 
+def rule_signed_object(ctx: Ctx) -> None:
+    so = ctx.repo.method("AbstractSignedObject", "verify", "ipv8/attestation/signed_object.py")
+    pk = so.params()[1]
+    rets = [r for r in walk_no_nested(so.node) if isinstance(r, ast.Return)]
+    ctx.anchor(rets, "return in AbstractSignedObject.verify")
+    for r in rets:
+        v = resolve(so, r.value)
+        is_check = isinstance(v, ast.Call) and call_name(v) == "is_valid_signature" and [norm(a) for a in v.args] == [pk, "self.get_plaintext()", "self.signature"]
+        is_false = const_value(r.value) is False
+        ctx.check(is_check or is_false, "verify-before-keep", so, r, "verify(public_key) returns is_valid_signature(public_key, plaintext, signature) (or False)",
+                  "AbstractSignedObject.verify can return a verdict that was not computed for the given public key (e.g. a cached result): a token that once verified "
+                  "against its real signer verifies against every key")
+    ctx.check(not local_defs(so, pk), "verify-before-keep", so, so.node, "public_key parameter not rebound", "verify rebinds the key it was asked to check")
+    hsh = ctx.repo.method("AbstractSignedObject", "_sign", "ipv8/attestation/signed_object.py")
+    ok = any(norm(s_.value) == "hashlib.sha3_256(self.get_plaintext_signed()).digest()" for s_, t in stores(hsh, "self._hash"))
+    ctx.check(ok, "verify-before-keep", hsh, hsh.node, "object hash covers plaintext and signature", "the object hash no longer covers plaintext + signature")
+    fdt = ctx.repo.method("Token", "from_database_tuple", TK)
+    for s_, t in stores(fdt, lambda c: c.endswith(".content")):
+        ctx.check(False, "content-binding", fdt, s_, "reloaded content goes through receive_content", "content from the database is attached without the hash check")
+    ctx.check(any(call_name(c) == "receive_content" for c in calls(fdt)), "content-binding", fdt, fdt.node, "from_database_tuple attaches content via receive_content",
+              "from_database_tuple does not check reloaded content against the content hash")
+
+
 def run(ctx: Ctx) -> None:
+    rule_signed_object(ctx)
     rule_verify_before_keep(ctx)
     rule_writers(ctx)
     rule_wake_all(ctx)
